@@ -395,7 +395,15 @@ def run_impl(case):
         req["env"] = env_rows([u[0] for u in req["l"]["u"]])
         try:
             keep = []
-            q, _ = build("dict", case["lv"], case.get("le"), case["lu"], case.get("lform"), case.get("ldtype"), keep)
+            q, how = build("dict", case["lv"], case.get("le"), case["lu"], case.get("lform"), case.get("ldtype"), keep)
+            if how == "dimlist":
+                # the model gets the dimension list itself (the dict is then built in DIMENSION_LIST order)
+                dl = [[0, 1]] * 8
+                for (p_, sname), e in case["lu"]:
+                    dl[DIMS.index(sname)] = [e[0], e[1]]
+                req["dimlist"] = dl
+                from scinumtools.units import settings
+                req["dimnames"] = list(settings.DIMENSION_LIST)
             poke(case, keep)
             imp = mark_nonfinite(observe(q))
         except (ZeroDivisionError, OverflowError, FloatingPointError):
@@ -452,13 +460,13 @@ def run_impl(case):
                 t = Quantity(case["tm"], dict(tgt), abse=case.get("te"))
                 req["op"], req["r"] = "toq", state(t)
                 res = lo.to(t)
-            elif tform == "unit":
-                t = getattr(Unit(), text_of(case["tu"]))
+            elif tform == "unit" and unit_attr(case["tu"]) is not None:
+                t = unit_attr(case["tu"])
                 req["op"], req["r"] = "toq", state(t)
                 res = lo.to(t)
             elif tform == "dict":
                 res = lo.to(dict(tgt))
-            elif tform == "text":
+            elif tform == "text" and text_parses(case["tu"]):
                 res = lo.to(text_of(case["tu"]))
             else:
                 res = lo.to(BaseUnits(tgt))
@@ -486,6 +494,29 @@ def run_impl(case):
         n, d = case["p"]
         req["p"] = [n, 1] if op == "pow_int" else ([n, d] if op == "pow_pair" else float_to_frac(n / d))
     return req, imp
+
+
+def unit_attr(tu):
+    """Unit().<symbol> if the unit parser reads the symbol as the intended unit id (else None: the parser is C03's)"""
+    from scinumtools.units import Unit
+    try:
+        t = getattr(Unit(), text_of(tu))
+        want = {uid(*f): Q(e[0], e[1]) for f, e in tu}
+        got = {k: Q(fr.num, fr.den) for k, fr in t.baseunits.baseunits.items()}
+        return t if got == want and float(t.magnitude.value) == 1.0 else None
+    except Exception:
+        return None
+
+
+def text_parses(tu):
+    """the unit text is read by the parser as the intended exponent dict (else the BaseUnits form is used)"""
+    from scinumtools.units import BaseUnits
+    try:
+        b = BaseUnits(text_of(tu))
+        want = {uid(*f): Q(e[0], e[1]) for f, e in tu}
+        return {k: Q(fr.num, fr.den) for k, fr in b.baseunits.items()} == want
+    except Exception:
+        return False
 
 
 def poke(case, keep):
@@ -528,7 +559,19 @@ def base_like(st, rows):
 
 
 # ---------------------------------------------------------------- case generation
+def distinct_ids(us):
+    return us is None or len({uid(*f) for f, _ in us}) == len(us)
+
+
 def gen_case(rng):
+    """one well-formed case: every unit list names each unit id once (they become Python dicts)"""
+    while True:
+        c = _gen_case(rng)
+        if all(distinct_ids(c.get(k)) for k in ("lu", "ru", "tu")):
+            return c
+
+
+def _gen_case(rng):
     r = rng.random()
     mode = "text" if rng.random() < 0.3 else "dict"
     if r < 0.40:                                   # + - between quantities
@@ -667,11 +710,15 @@ def gen_ctor(rng):
     if rng.random() < 0.8:
         inv = [(f, (-e[0], e[1])) for f, e in (variant(rng, lu) or lu)]
         seen = {uid(*f) for f, _ in lu}
-        lu = lu + [(f, e) for f, e in inv if uid(*f) not in seen]
+        for f, e in inv:
+            if uid(*f) not in seen:        # a Python dict has every unit id once
+                seen.add(uid(*f))
+                lu.append((f, e))
         if rng.random() < 0.3:
             nodim = unit_pool()[1][json.dumps([[0, 1]] * 8)]
             s, pr = rng.choice(nodim)
             if uid("", s) not in seen:
+                seen.add(uid("", s))
                 lu.append((("", s), (1, 1)))
     return {"op": "new", "lv": gen_value(rng), "lu": lu}
 
